@@ -322,6 +322,34 @@ def main(pid="C10"):
         rep.add("traces_validated_against_impl", acc)
         if full:
             rep.sample({"random_trace_prefix": {"par": full[0]["par"], "steps": full[0]["steps"][:8]}})
+        if thorough and full:
+            # demonstrate the binding: corrupt one logged decision / level, drop one event - the trace spec must reject
+            import copy
+            corrupted = []
+            kinds = []
+            for t in full[:30]:
+                reqs = [i for i, s_ in enumerate(t["steps"]) if s_["a"] == "Request"]
+                if len(reqs) < 3:
+                    continue
+                c1 = copy.deepcopy(t)
+                i = reqs[len(reqs) // 2]
+                c1["steps"][i]["ok"] = not c1["steps"][i]["ok"]
+                corrupted.append(c1)
+                kinds.append("decision flipped")
+                withlv = [i for i in reqs if t["steps"][i]["haslv"]]
+                if withlv:
+                    c2 = copy.deepcopy(t)
+                    i = withlv[-1]
+                    c2["steps"][i]["lv"][c2["steps"][i]["ip"]] += 1
+                    corrupted.append(c2)
+                    kinds.append("level+1")
+            if corrupted:
+                rc, reached_c = validate(rep, corrupted, "RateLimitTrace", "RateLimitTrace.cfg")
+                wrongly = [kinds[i - 1] for i, t in enumerate(corrupted, 1)
+                           if reached_c.get(i, {"max": 0})["max"] == len(t["steps"]) + 1 and not reached_c[i]["bad"]]
+                rep.set("binding_selftest", {"corrupted_traces": len(corrupted), "wrongly_accepted": wrongly})
+                if wrongly:
+                    raise tlc.TLCError("binding self-test: corrupted rate-limit traces accepted: %s" % wrongly)
         # ---- V: observation spec on everything that did not conform (+ batched runs) --------------------------
         suspects = [("replay", m) for m in mism] + [("trace", t) for t in rejected]
         obs_in = []
